@@ -140,7 +140,9 @@ impl LineParser {
         let (has_commands, has_expectations) =
             (!self.command.is_empty(), !self.expectations.is_empty());
         if !has_commands {
-            if has_expectations {
+            // an exit code without a command is as misplaced as an expectation
+            // without one (and must not be taken over by the next testcase)
+            if has_expectations || self.exit_code.is_some() {
                 bail!(
                     "line {}: testcase output expectation(s) given, but no shell expression specified. Did you forget to prefix the command with '$'?",
                     line_index + 1
@@ -160,9 +162,9 @@ impl LineParser {
         Ok(())
     }
 
-    // whether shell expression(s) or expectation(s) are given
+    // whether shell expression(s), expectation(s) or an exit code are given
     pub(super) fn has_testcase_body(&self) -> bool {
-        !self.command.is_empty() || !self.expectations.is_empty()
+        !self.command.is_empty() || !self.expectations.is_empty() || self.exit_code.is_some()
     }
 
     fn flush(&mut self) {
